@@ -137,6 +137,20 @@ func cmdCheck(args []string) int {
 		done[b] = true
 		if b.Flags["trusted"] || b.Flags["assume-contract"] {
 			trusted = append(trusted, "assumed contract (not verified): "+b.QualName())
+			if b.Dec == nil || b.Target == nil || len(b.Target.Blocks) == 0 {
+				continue
+			}
+			// the recursion measure of a function whose functional contract is
+			// assumed is still checked: only those obligations are kept
+			u := eng.verifyBlock(b)
+			var kept []*Obligation
+			for _, o := range u.Ctx.obls {
+				if o.Kind == "rec-decreases" || o.Expect == "sat" || strings.Contains(o.Text, "[at creation of closure ") || (o.Kind == "pre@call" && o.Clause != nil && len(o.Clause.OnlyProps) > 0) {
+					kept = append(kept, o)
+				}
+			}
+			u.Ctx.obls = kept
+			units = append(units, u)
 			continue
 		}
 		if b.IsGhostDecl && b.Flags["pure"] && len(b.Pre) == 0 && len(b.Post) == 0 && b.Dec == nil {
